@@ -1,1 +1,369 @@
-/-! Property theorems for C13 (none yet). -/
+import MirVerif.Lemmas.LinkObs
+/-!
+# C13 — imports bind to the most recently loaded export, for any load/link history
+
+All theorems are about `run h`, the state machine of `Model/Link.lean` (a transcription of
+`add_item`, `setup_global`, `MIR_load_module`, `MIR_load_external`, `MIR_link` and of the places
+where the interpreter/generator read an import's address) applied to an ARBITRARY history `h` of
+API calls, and compare it with `lastDef h n`, which is computed from the list `h` alone
+(`Model/LinkSpec.lean`).  Histories end at the first error: `(run h).err = none` says that no
+call of the history reported one.
+
+What is *not* proved here: that the C code behaves like `run` (that is the correspondence check
+`checks/c13.py`), and nothing about modules loaded twice as the same `MIR_module_t` object.
+-/
+namespace MirVerif.Link
+set_option linter.unusedSimpArgs false
+set_option linter.unusedVariables false
+
+/-- what a link with resolver `res` must bind an import of `n` to after history `pre` -/
+def wantedAfter (pre : List Op) (res : Resolver) (n : Name) : Option Def :=
+  match lastDef pre n with
+  | some d => some d
+  | none => (res n).map Def.ext
+
+theorem wantedAfter_eq (pre : List Op) (res : Resolver) (n : Name) :
+    wantedAfter pre res n = wanted pre.reverse res n := by
+  unfold wantedAfter wanted lastDef
+  cases lastDefR pre.reverse n <;> rfl
+
+/-! ## 1. the environment is `lastDef` -/
+
+/-- After any error-free history the environment maps every name to the definition loaded last. -/
+theorem env_is_last_def (h : List Op) (n : Name) (hok : (run h).err = none) :
+    (run h).env.lookup n = lastDef h n :=
+  (inv_run hok).env n
+
+/-- the queue holds exactly the modules loaded since the last link that installed an interface
+(as far as their imported names are concerned) -/
+theorem queue_is_pending (h : List Op) (n : Name) (hok : (run h).err = none) :
+    (∃ m ∈ (run h).queue, n ∈ m.importNames) ↔ n ∈ pendingR h.reverse :=
+  (inv_run hok).pend n
+
+def exA : List Decl := [.exp 5, .func 5, .exp 3, .data 3]      -- export f, f: func, export d, d: data
+def exB : List Decl := [.imp 5 .call, .imp 3 .ref, .imp 6 .ptr] -- import f (called), d (read), g (via reg)
+def resG : Resolver := fun n => if n = 6 then some 206 else none
+def exH : List Op := [.loadModule 1 exA, .loadModule 2 exB, .setRedef true, .loadExternal 5 101,
+                      .loadModule 5 exA, .link (some .interp) resG, .call]
+
+example : (run exH).err = none ∧ (run exH).env.lookup 5 = some (.func 5) ∧
+    lastDef exH 5 = some (.func 5) ∧ lastDef exH 6 = some (.ext 206) ∧ lastDef exH 7 = none := by
+  decide
+
+/-! ## 2. the property statement -/
+
+theorem take_succ_of_get {h : List Op} {k : Nat} {op : Op} (hk : h[k]? = some op) :
+    h.take (k + 1) = h.take k ++ [op] := by
+  rw [List.take_add_one, hk]; rfl
+
+/-- **Property C13.**  If call number `k` of the history is a link that succeeds, then every module
+that was waiting in `modules_to_link` before it has, right after it, each of its imports `n` bound
+to the definition of `n` loaded last before the link — or, if there is none, to the address the
+resolver gives.  (`linkedMods` = the same modules in their state after the step.) -/
+theorem binding_spec (h : List Op) (k : Nat) (ifc : Option Iface) (res : Resolver)
+    (hk : h[k]? = some (.link ifc res)) (hok : (run (h.take (k + 1))).err = none) :
+    Forall2 (fun m m' => m'.id = m.id ∧ m'.imps = m.imps ∧
+        ∀ n ∈ m.importNames, m'.binds.lookup n = wantedAfter (h.take k) res n ∧
+                             (wantedAfter (h.take k) res n).isSome = true)
+      (run (h.take k)).queue
+      (linkedMods (run (h.take k)) (run (h.take (k + 1))) ifc) := by
+  rw [take_succ_of_get hk, run_snoc] at hok ⊢
+  have hs : (run (h.take k)).err = none := err_none_of_step hok
+  rw [step_of_ok _ hs] at hok ⊢
+  have := link_spec (inv_run hs) hs hok
+  simpa only [wantedAfter_eq] using this
+
+example : linkedMods (run (exH.take 5)) (run (exH.take 6)) (some .interp) =
+    [ { id := 1, imps := [], iface := some .interp },
+      { id := 2, imps := [(5, .call), (3, .ref), (6, .ptr)], binds := [(5, .func 5), (3, .data 5), (6, .ext 206)], inl := [(5, 5)],
+        iface := some .interp },
+      { id := 5, imps := [], iface := some .interp } ] := by decide
+
+/-! ## 3. imports without definition -/
+
+/-- a successful link binds an import that has no definition to what the resolver answered -/
+theorem unresolved_uses_resolver (h : List Op) (k : Nat) (ifc : Option Iface) (res : Resolver)
+    (hk : h[k]? = some (.link ifc res)) (hok : (run (h.take (k + 1))).err = none)
+    (m : Mod) (hm : m ∈ (run (h.take k)).queue) (n : Name) (hn : n ∈ m.importNames)
+    (hnone : lastDef (h.take k) n = none) :
+    ∃ a, res n = some a ∧
+      ∃ m' ∈ linkedMods (run (h.take k)) (run (h.take (k + 1))) ifc,
+        m'.id = m.id ∧ m'.binds.lookup n = some (.ext a) := by
+  obtain ⟨m', hm', hid, _, hb⟩ := (binding_spec h k ifc res hk hok).left m hm
+  obtain ⟨hb1, hb2⟩ := hb n hn
+  simp only [wantedAfter, hnone] at hb1 hb2
+  cases hr : res n with
+  | none => rw [hr] at hb2; cases hb2
+  | some a => exact ⟨a, rfl, m', hm', hid, by rw [hb1, hr]; rfl⟩
+
+/-- …and if the resolver is absent or answers NULL, the link reports `MIR_undeclared_op_ref_error` -/
+theorem unresolved_is_error (h : List Op) (k : Nat) (ifc : Option Iface) (res : Resolver)
+    (hk : h[k]? = some (.link ifc res)) (hpre : (run (h.take k)).err = none)
+    (m : Mod) (hm : m ∈ (run (h.take k)).queue) (n : Name) (hn : n ∈ m.importNames)
+    (hnone : lastDef (h.take k) n = none) (hres : res n = none) :
+    (run (h.take (k + 1))).err = some .undeclaredOpRef := by
+  rw [take_succ_of_get hk, run_snoc, step_of_ok _ hpre]
+  have henv : (run (h.take k)).env.lookup n = none := by
+    rw [env_is_last_def _ _ hpre]; exact hnone
+  have := resolveQueue_fails hm hn henv hres
+  simp only [link]
+  generalize resolveQueue res (run (h.take k)).queue (run (h.take k)).env = r at this ⊢
+  obtain ⟨env', q', e⟩ := r
+  simp only at this
+  subst this
+  rfl
+
+/-- the only error a link can report is `MIR_undeclared_op_ref_error` -/
+theorem link_error_kind (s : State) (ifc : Option Iface) (res : Resolver) (e : Err)
+    (hs : s.err = none) (he : (link s ifc res).err = some e) : e = .undeclaredOpRef := by
+  unfold link at he
+  generalize hr : resolveQueue res s.queue s.env = r at he
+  obtain ⟨env', q', e'⟩ := r
+  cases e' with
+  | some e'' =>
+    simp only at he
+    cases he
+    exact resolveQueue_err hr
+  | none =>
+    cases ifc <;> simp [hs] at he
+
+example : (run [.loadModule 1 exB, .link (some .gen) resG]).err = some .undeclaredOpRef := by decide
+example : (run [.loadModule 1 [.imp 6 .ptr], .link (some .gen) resG]).err = none := by decide
+
+/-! ## 4. redefinition -/
+
+/-- Loading a module that exports a *function* `n` while `n` already has a definition (of any kind:
+MIR function, data or external address) is rejected with `MIR_repeated_decl_error` unless
+redefinition is permitted.  (`hb`: the module text itself is well formed.) -/
+theorem redef_rejected (pre : List Op) (id : Nat) (ds : List Decl) (n : Name)
+    (hpre : (run pre).err = none) (hb : ∃ b, build ds = .ok b)
+    (hexp : declExport id ds n = some (.func id)) (hdef : (lastDef pre n).isSome = true)
+    (hperm : redefOkR pre.reverse = false) :
+    (run (pre ++ [.loadModule id ds])).err = some .repeatedDecl := by
+  obtain ⟨b, hb⟩ := hb
+  rw [run_snoc, step_of_ok _ hpre]
+  have hinv := inv_run hpre
+  obtain ⟨hx, hdefs, _⟩ := build_spec hb
+  have hkind : declHasExp ds n = true ∧ declDefKind ds n = some true := by
+    unfold declExport at hexp
+    cases h1 : declHasExp ds n <;> simp [h1] at hexp
+    cases h2 : declDefKind ds n with
+    | none => simp [h2] at hexp
+    | some k => cases k <;> simp [h2] at hexp ⊢
+  have hmem : (n, true) ∈ b.defs := (hdefs n true).2 hkind.2
+  have hexported : b.exported n = true := by rw [hx n, hkind.1, hkind.2]; simp
+  have henv : ((run pre).env.lookup n).isSome = true := by rw [hinv.env n]; exact hdef
+  have hrej := loadDefs_rejects (id := id) hmem hexported henv
+  simp only [loadModule, hb, hinv.redef, hperm]
+  generalize loadDefs id false b b.defs (run pre).env = r at hrej ⊢
+  obtain ⟨env', e⟩ := r
+  simp only at hrej
+  subst hrej
+  rfl
+
+/-- with `MIR_set_func_redef_permission (ctx, TRUE)` every well-formed module is accepted, and its
+exports become the last definitions -/
+theorem redef_permitted (pre : List Op) (id : Nat) (ds : List Decl)
+    (hpre : (run pre).err = none) (hb : ∃ b, build ds = .ok b)
+    (hperm : redefOkR pre.reverse = true) :
+    (run (pre ++ [.loadModule id ds])).err = none ∧
+    ∀ n d, declExport id ds n = some d → (run (pre ++ [.loadModule id ds])).env.lookup n = some d := by
+  obtain ⟨b, hb⟩ := hb
+  have hinv := inv_run hpre
+  have hok : (run (pre ++ [.loadModule id ds])).err = none := by
+    rw [run_snoc, step_of_ok _ hpre]
+    simp only [loadModule, hb, hinv.redef, hperm]
+    have := loadDefs_perm_ok (id := id) (b := b) (defs := b.defs) (env := (run pre).env)
+    generalize loadDefs id true b b.defs (run pre).env = r at this ⊢
+    obtain ⟨env', e⟩ := r
+    simp only at this
+    subst this
+    exact hpre
+  refine ⟨hok, ?_⟩
+  intro n d hd
+  rw [env_is_last_def _ _ hok]
+  simp [lastDef, lastDefR, hd]
+
+/-- a module that exports no function (only data) is never rejected for redefinition -/
+theorem redef_data_accepted (pre : List Op) (id : Nat) (ds : List Decl)
+    (hpre : (run pre).err = none) (hb : ∃ b, build ds = .ok b)
+    (hnof : ∀ n, declExport id ds n ≠ some (.func id)) :
+    (run (pre ++ [.loadModule id ds])).err = none := by
+  obtain ⟨b, hb⟩ := hb
+  obtain ⟨hx, hdefs, _⟩ := build_spec hb
+  rw [run_snoc, step_of_ok _ hpre]
+  simp only [loadModule, hb]
+  have hno : ∀ n, (n, true) ∈ b.defs → b.exported n = false := by
+    intro n hn
+    have hk := (hdefs n true).1 hn
+    cases hxn : b.exported n with
+    | false => rfl
+    | true =>
+      have := (hx n).1 hxn
+      exact absurd (by simp [declExport, this.1, hk]) (hnof n)
+  have := loadDefs_data_ok (id := id) (ok := (run pre).redefOk) (env := (run pre).env) hno
+  generalize loadDefs id (run pre).redefOk b b.defs (run pre).env = r at this ⊢
+  obtain ⟨env', e⟩ := r
+  simp only at this
+  subst this
+  exact hpre
+
+example : (run [.loadModule 1 exA, .loadModule 2 exA]).err = some .repeatedDecl := by decide
+example : (run [.loadExternal 5 100, .loadModule 2 exA]).err = some .repeatedDecl := by decide
+example : (run [.loadModule 1 exA, .setRedef true, .loadModule 3 exA]).err = none := by decide
+example : (run [.loadModule 1 [.exp 3, .data 3], .loadModule 2 [.exp 3, .data 3]]).err = none := by
+  decide
+
+/-- recorded, not alarmed on (DESIGN §6): `setup_global` runs before the redefinition test, so after a
+REJECTED load the environment already names the rejected function -/
+example : (run [.loadModule 1 exA, .loadModule 2 exA]).err = some .repeatedDecl ∧
+    (run [.loadModule 1 exA, .loadModule 2 exA]).env.lookup 5 = some (.func 2) ∧
+    (run [.loadModule 1 exA, .loadModule 2 exA]).queue.map (·.id) = [1] := by decide
+
+/-! ## 5. are bindings frozen?
+
+The full statement — "no later operation changes the import bindings of a module whose interface
+is installed" — is FALSE for the code as it is:
+
+  theorem bindings_frozen (s : State) (op : Op) (i : Nat) (m : Mod) (hm : s.done[i]? = some m) :
+      ∃ m', (step s op).done[i]? = some m' ∧ m'.binds = m.binds
+
+`generate_icode` (mir-interp.c:220-221) re-reads, at the FIRST execution of an interpreted function,
+the address of every import used as a `mov` operand from the environment item, which later loads
+have overwritten in place.  Witness below; the check replays it on the real code
+(known finding `C13:interp-late-rebinding`). -/
+
+def lateH : List Op :=
+  [.loadModule 1 [.exp 3, .data 3], .loadModule 2 [.imp 3 .ref], .link (some .interp) (fun _ => none),
+   .loadModule 4 [.exp 3, .data 3]]
+
+theorem bindings_frozen_fails :
+    ∃ (h : List Op) (op : Op) (i : Nat) (m m' : Mod), (run h).err = none ∧
+      (run h).done[i]? = some m ∧ (step (run h) op).done[i]? = some m' ∧ m'.binds ≠ m.binds :=
+  ⟨lateH, .call, 1,
+   { id := 2, imps := [(3, .ref)], binds := [(3, .data 1)], iface := some .interp },
+   { id := 2, imps := [(3, .ref)], binds := [(3, .data 4)], iface := some .interp, coded := true },
+   by decide, by decide, by decide, by decide⟩
+
+/-- What does hold: once the entry function of a module has been translated (`coded`: always for
+the generator interfaces, after the first call for the interpreter), NO later history changes
+anything of that module — bindings, inlined bodies, interface. -/
+theorem bindings_frozen_partial (s : State) (later : List Op) (i : Nat) (m : Mod)
+    (hm : s.done[i]? = some m) (hc : m.coded = true) :
+    (runFrom s later).done[i]? = some m :=
+  runFrom_done_coded later hm hc
+
+def genH : List Op :=
+  [.loadModule 1 exA, .loadModule 2 exB, .link (some .gen) resG]
+def laterH : List Op :=
+  [.setRedef true, .loadModule 5 exA, .loadExternal 6 100, .call, .link (some .interp) resG, .call]
+
+example : (run genH).done[1]?.map (·.coded) = some true ∧
+    (runFrom (run genH) laterH).err = none ∧
+    (runFrom (run genH) laterH).done[1]? = (run genH).done[1]? ∧
+    (run genH).done[1]?.map (·.binds) = some [(5, .func 1), (3, .data 1), (6, .ext 206)] ∧
+    lastDef (genH ++ laterH) 5 = some (.func 5) := by decide
+
+/-- …and what its entry function observes stays the same, too -/
+theorem observed_frozen (s : State) (later : List Op) (m : Mod) (p : Name × Use) (v : Nat)
+    (h : observeImp s m p = some v) : observeImp (runFrom s later) m p = some v :=
+  observeImp_mono (fun _ hl => runFrom_done_ids later hl) m p h
+
+/-- modules linked with a generator interface are translated at once -/
+theorem gen_linked_is_coded (i : Iface) (m : Mod) (hi : i ≠ .interp) :
+    (installIface i m).coded = true := by
+  cases i <;> simp [installIface] at hi ⊢
+
+/-- every module is translated after the first `call` -/
+theorem called_is_coded (s : State) (m' : Mod) (hm : m' ∈ (callAll s).done) : m'.coded = true := by
+  rw [callAll_done] at hm
+  obtain ⟨m, _, rfl⟩ := List.mem_map.1 hm
+  exact (codeMod_fields s.env m).2.2.2.2
+
+theorem lookup_map_keep {bs : List (Name × Def)} {f : Name × Def → Name × Def}
+    (hf : ∀ p, (f p).1 = p.1) (n : Name) :
+    (bs.map f).lookup n = (bs.lookup n).map (fun d => (f (n, d)).2) := by
+  induction bs with
+  | nil => rfl
+  | cons p rest ih =>
+    obtain ⟨m, d⟩ := p
+    have h1 : f (m, d) = (m, (f (m, d)).2) := by
+      have := hf (m, d); exact Prod.ext this rfl
+    rw [List.map_cons, h1, lookup_cons_eq, lookup_cons_eq]
+    by_cases hnm : n = m
+    · subst hnm; simp
+    · simp [hnm, ih]
+
+/-- The exact behaviour of the interpreter interface: at the first call after history `h`, an import
+of `n` that the entry function uses as a `mov` operand (`.ptr`, `.ref`) is re-bound to the definition
+loaded last before the CALL (not before the link). -/
+theorem interp_first_call_rebinds (h : List Op) (i : Nat) (m : Mod) (n : Name) (u : Use) (d0 : Def)
+    (hok : (run h).err = none) (hm : (run h).done[i]? = some m) (hc : m.coded = false)
+    (hu : m.imps.lookup n = some u) (hcall : u ≠ .call) (hb : m.binds.lookup n = some d0) :
+    ∃ m', (run (h ++ [.call])).done[i]? = some m' ∧
+      m'.binds.lookup n = (lastDef h n <|> some d0) := by
+  rw [run_snoc, step_of_ok _ hok]
+  simp only [callAll_done, List.getElem?_map, hm, Option.map_some]
+  refine ⟨_, rfl, ?_⟩
+  have hcf : m.coded = false := hc
+  simp only [codeMod, hcf, Bool.false_eq_true, ↓reduceIte]
+  rw [lookup_map_keep (by intro p; split <;> rfl) n, hb, ← env_is_last_def h n hok]
+  simp only [Option.map_some, hu]
+  cases u with
+  | call => exact absurd rfl hcall
+  | ptr => cases (run h).env.lookup n <;> rfl
+  | ref => cases (run h).env.lookup n <;> rfl
+
+example : (run lateH).done[1]?.map (·.binds) = some [(3, .data 1)] ∧
+          (run (lateH ++ [.call])).done[1]?.map (·.binds) = some [(3, .data 4)] ∧
+          lastDef (lateH.take 2) 3 = some (.data 1) ∧ lastDef lateH 3 = some (.data 4) := by decide
+
+/-! ## 6. what runs versus what is bound: a link with a NULL interface
+
+`MIR_link (ctx, NULL, r)` leaves the modules in `modules_to_link`, so the next link binds their
+imports again (that is `binding_spec`, it holds) — but `process_inlines` has already replaced the
+immediate calls by the body of the function that was last at the time of the FIRST link.  The body
+that runs is then not the definition the import is bound to.  Witness (replayed on the real code,
+known finding `C13:null-link-stale-inline`): -/
+
+def staleH : List Op :=
+  [.loadModule 1 [.exp 5, .func 5], .loadModule 2 [.imp 5 .call], .link none (fun _ => none),
+   .setRedef true, .loadModule 5 [.exp 5, .func 5], .link (some .interp) (fun _ => none), .call]
+
+theorem stale_inline_witness :
+    (run staleH).err = none ∧ lastDef (staleH.take 5) 5 = some (.func 5) ∧
+    (run staleH).done[1]?.map (fun m => (m.binds.lookup 5, observeImp (run staleH) m (5, .call))) =
+      some (some (.func 5), some 1) := by decide
+
+/-- For a module linked for the first time (nothing inlined yet) what an immediate call runs right
+after the link IS the binding: the inlined body is the body of the function the import is bound to. -/
+theorem inline_follows_binding (m : Mod) (n : Name) (id : Nat) (hfresh : m.inl = [])
+    (hu : (n, Use.call) ∈ m.imps) (hb : m.binds.lookup n = some (.func id)) :
+    (inlineMod m).inl.lookup n = some id :=
+  inline_of_func hfresh hu hb
+
+/-- **What runs.**  If call number `k` is a successful link that installs an interface, then calling,
+right after it, the entry function of any module that was waiting in the queue and has not been
+through a NULL-interface link before (`m.inl = []`) yields, for every import, the value of the
+definition loaded last before the link (or of the resolver's address): the version that runs is
+the version the property names.  `m2` is the module's state after the link and the call. -/
+theorem observed_spec (h : List Op) (k : Nat) (i : Iface) (res : Resolver)
+    (hk : h[k]? = some (.link (some i) res)) (hok : (run (h.take (k + 1))).err = none) :
+    Forall2 (fun m m2 => m.inl = [] → m2.id = m.id ∧
+        ∀ n u, m.imps.lookup n = some u →
+          observeImp (callAll (run (h.take (k + 1)))) m2 (n, u) =
+            (wantedAfter (h.take k) res n).map Def.value)
+      (run (h.take k)).queue
+      ((callAll (run (h.take (k + 1)))).done.drop (run (h.take k)).done.length) := by
+  have hfl := funcsLoaded_run hok
+  rw [take_succ_of_get hk, run_snoc] at hok hfl ⊢
+  have hs : (run (h.take k)).err = none := err_none_of_step hok
+  rw [step_of_ok _ hs] at hok hfl ⊢
+  have := observed_after_link (inv_run hs) hs hok hfl
+  simpa only [wantedAfter_eq] using this
+
+example : (callAll (run (exH.take 6))).done[1]?.map
+    (fun m2 => observeMod (callAll (run (exH.take 6))) m2) =
+    some [(5, some 5), (3, some 5), (6, some 206)] := by decide
+
+end MirVerif.Link
